@@ -63,7 +63,7 @@ def run_once(r):
     os.makedirs(home, exist_ok=True)
     out_path = os.path.join(r.workdir, "stdout")
     err_path = os.path.join(r.workdir, "stderr")
-    env = {"HOME": home, "OCTOSQL_NO_TELEMETRY": "1", "PATH": os.environ.get("PATH", ""), "XDG_CONFIG_HOME": home + "/.xc", "XDG_DATA_HOME": home + "/.xd", "XDG_CACHE_HOME": home + "/.xh"}
+    env = {"HOME": home, "OCTOSQL_NO_TELEMETRY": "1", "PATH": os.environ.get("PATH", ""), "XDG_CONFIG_HOME": home + "/.xc", "XDG_DATA_HOME": home + "/.xd", "XDG_CACHE_HOME": home + "/.xh", "GOMAXPROCS": "2"}
     with open(out_path, "wb") as fo, open(err_path, "wb") as fe:
         p = subprocess.Popen([OCTOSQL, sql, "-o", "json"], stdin=subprocess.PIPE, stdout=fo, stderr=fe, env=env, cwd=r.workdir)
         fd = p.stdin.fileno()
